@@ -32,7 +32,7 @@ func PackageDomain() Domain { return domains.PackageDomainAtDepth(1) }
 
 // PackageDomainAtDepth returns an error domain that describes the
 // package at the given call depth.
-func PackageDomainAtDepth(depth int) Domain { return domains.PackageDomainAtDepth(depth) }
+func PackageDomainAtDepth(depth int) Domain { return domains.PackageDomainAtDepth(depth + 1) }
 
 // WithDomain wraps an error so that it appears to come from the given domain.
 //
